@@ -20,6 +20,7 @@ _C_CALLABLE_TYPES = (types.BuiltinFunctionType, types.BuiltinMethodType, types.M
 _PROXY_FOR = {SymBytes: bytes, SymStr: str, SymInt: int, SymBool: bool, SymDict: dict, SymSet: set}
 
 
+
 def _any_sym(args, kwargs):
     for a in args:
         if has_sym(a):
@@ -28,6 +29,22 @@ def _any_sym(args, kwargs):
         if has_sym(a):
             return True
     return False
+
+
+class OpaqueStr(str):
+    """Result of formatting a symbolic value for human consumption (repr / %r / f-string of bytes ...).
+
+    Output formatting of symbolic values is not modelled: the text is replaced by a fixed placeholder.  This is
+    only sound when the text is not inspected by the code under test (exception messages, log lines); the
+    per-path replay against the unlifted code compares every observation and flags a harness that depends on it."""
+
+
+OPAQUE_COUNT = [0]
+
+
+def opaque(what):
+    OPAQUE_COUNT[0] += 1
+    return OpaqueStr("<symbolic %s>" % what)
 
 
 # ------------------------------------------------------------ builtin models
@@ -80,9 +97,9 @@ def m_str(*args):
     if isinstance(x, SymBytes):
         if len(args) > 1:
             return x.decode(*args[1:])
-        core.cur().unsupported("str(SymBytes)")
+        return opaque("bytes")
     if isinstance(x, SymBase):
-        core.cur().unsupported("str(%s)" % type(x).__name__)
+        return opaque(type(x).__name__)
     return str(*args)
 
 
@@ -92,6 +109,8 @@ def m_bytes(*args):
     x = args[0]
     if isinstance(x, SymBytes):
         return x
+    if isinstance(x, SymByteArray):
+        return x.tobytes()
     if isinstance(x, SymStr):
         return x.encode(*args[1:])
     if isinstance(x, (list, tuple)) and has_sym(x):
@@ -119,10 +138,8 @@ def m_chr(i):
 
 
 def m_repr(x):
-    if isinstance(x, SymBase):
-        core.cur().unsupported("repr(%s)" % type(x).__name__)
-    if has_sym(x):
-        core.cur().unsupported("repr of a container holding symbolic values")
+    if isinstance(x, SymBase) or has_sym(x, 3):
+        return opaque("repr")
     return repr(x)
 
 
@@ -209,6 +226,90 @@ def m_struct_pack(fmt, *vals):
     return struct.pack(fmt, *vals)
 
 
+class SymByteArray(SymBase):
+    """bytearray whose items may be symbolic (created for every bytearray() call in lifted code)."""
+    __slots__ = ("items",)
+
+    def __init__(self, init=b""):
+        if isinstance(init, int):
+            self.items = [0] * init
+        else:
+            self.items = list(seq_items(init)) if isinstance(init, (bytes, bytearray, SymBytes)) else \
+                [zi(x) if isinstance(x, SymBase) else x for x in init]
+
+    def _item(self, x):
+        if isinstance(x, SymInt):
+            eng = core.cur()
+            if not eng.branch(z3.And(x.z >= 0, x.z < 256)):
+                raise ValueError("byte must be in range(0, 256)")
+            return x.z
+        x = int(x)
+        if not 0 <= x < 256:
+            raise ValueError("byte must be in range(0, 256)")
+        return x
+
+    def append(self, x):
+        self.items.append(self._item(x))
+
+    def extend(self, other):
+        if isinstance(other, (bytes, bytearray, SymBytes, SymByteArray)):
+            self.items += list(other.items if isinstance(other, (SymBytes, SymByteArray)) else other)
+        else:
+            for x in other:
+                self.append(x)
+
+    def __iadd__(self, other):
+        self.extend(other)
+        return self
+
+    def __add__(self, other):
+        r = SymByteArray(self)
+        r.extend(other)
+        return r
+
+    def __len__(self):
+        return len(self.items)
+
+    def __iter__(self):
+        return iter([mkint(i) for i in self.items])
+
+    def __getitem__(self, i):
+        if isinstance(i, slice):
+            r = SymByteArray()
+            r.items = self.items[i]
+            return r
+        return mkint(self.items[i])
+
+    def __setitem__(self, i, v):
+        if isinstance(i, slice):
+            self.items[i] = list(seq_items(v))
+        else:
+            self.items[i] = self._item(v)
+
+    def __eq__(self, other):
+        return mkseq("bytes", self.items) == (mkseq("bytes", other.items) if isinstance(other, SymByteArray) else other)
+
+    def __ne__(self, other):
+        r = self.__eq__(other)
+        return ~r if isinstance(r, SymBool) else not r
+
+    def __hash__(self):
+        core.cur().unsupported("hash(bytearray)")
+
+    def __bool__(self):
+        return bool(self.items)
+
+    def tobytes(self):
+        return mkseq("bytes", self.items)
+
+    def decode(self, *a, **k):
+        v = mkseq("bytes", self.items)
+        return v.decode(*a, **k)
+
+    def __repr__(self):
+        return "<SymByteArray %r>" % (self.items,)
+
+
 class SymBytesIO:
     """io.BytesIO over symbolic content (read side + append-only write)."""
 
@@ -284,6 +385,8 @@ def m_bytesio(*args):
     return io.BytesIO(*args)
 
 
+_PROXY_FOR[SymByteArray] = bytearray
+
 FUNC_MODELS = {
     io.BytesIO: m_bytesio,
     builtins.isinstance: m_isinstance,
@@ -346,6 +449,8 @@ def call(f, *args, **kwargs):
     if (type(f) is types.BuiltinMethodType and f.__name__ == "join" and args
             and not isinstance(args[0], (list, tuple)) and isinstance(f.__self__, (bytes, str))):
         args = (list(args[0]),) + args[1:]      # materialise generators/deques so symbolic parts are seen
+    if f is bytearray:
+        return SymByteArray(*args)
     if not _any_sym(args, kwargs):
         return f(*args, **kwargs)
     model = None
@@ -449,6 +554,8 @@ def _format_percent(fmt, arg):
             out += seq_items(render_int(v, kind))
         elif t == "b" and kind == "bytes" and isinstance(v, SymBytes):
             out += v.items
+        elif kind == "str" and t in "rsa":
+            out += [ord(c) for c in opaque("%" + t)]
         else:
             core.cur().unsupported("%%%s of %s in %s format" % (t, type(v).__name__, kind))
     if not isinstance(args, (dict, SymDict)) and ai < len(args):
@@ -479,17 +586,16 @@ def fstr(parts):
         if isinstance(p, tuple):
             v, conv, spec = p
             if isinstance(v, SymBase):
-                if spec or conv not in (-1, ord("s")):
-                    core.cur().unsupported("f-string conversion/spec on a symbolic value")
-                if isinstance(v, SymStr):
+                if isinstance(v, SymStr) and not spec and conv in (-1, ord("s")):
                     items += v.items
-                elif isinstance(v, SymInt):
+                elif isinstance(v, SymInt) and not spec and conv in (-1, ord("s")):
                     items += seq_items(render_int(v, "str"))
                 else:
-                    core.cur().unsupported("f-string of %s" % type(v).__name__)
+                    items += [ord(c) for c in opaque("f-string")]
             else:
-                if has_sym(v):
-                    core.cur().unsupported("f-string of a container holding symbolic values")
+                if has_sym(v, 3):
+                    items += [ord(c) for c in opaque("f-string")]
+                    continue
                 if conv == ord("r"):
                     v = repr(v)
                 elif conv == ord("s"):
